@@ -1,4 +1,4 @@
-From AQ Require Import lib.Base model.H3Parse proofs.H3Chunk proofs.H3Split proofs.H3Loop proofs.H3Recv proofs.H3Fin proofs.H3Uni proofs.H3Table proofs.H3Push.
+From AQ Require Import lib.Base model.H3Parse proofs.H3Chunk proofs.H3Split proofs.H3Loop proofs.H3Recv proofs.H3Fin proofs.H3Uni proofs.H3Table proofs.H3Push proofs.H3Hdr proofs.H3UniN proofs.H3Conn proofs.H3ConnTwo.
 
 (* On the code as pinned, the events of a request stream depend on the chunking: three byte strings for which
    whole delivery and a two-chunk delivery give different normalised events (end-of-stream marker). *)
@@ -46,6 +46,26 @@ Theorem interleaving_independent_push_promise :
   run fx c0 [(QStream sid data fin, OB); (QStream es encdata false, O2)].
 Proof. exact pp_interleave. Qed.
 Print Assumptions interleaving_independent_push_promise.
+
+(* The same for a HEADERS frame (request, response or trailers; request or push stream behind its push id; client or
+   server): the stream [sid] is new or between two frames where HEADERS are allowed (hd_ready: headers_recv_state is not
+   AFTER_TRAILERS -- there the frame is refused before the decoder is asked), the delivery starts with a complete HEADERS
+   frame followed by ANY bytes (body, trailers, further frames, garbage), with or without FIN.  "Including when header
+   compression makes a request wait for the encoder stream": the events (HeadersReceived with its end-of-stream flag,
+   the body, the close code for bad headers / content-length) do not depend on which stream is delivered first. *)
+Theorem interleaving_independent_headers :
+  forall fx, fx_trunc fx = true -> fx_endmark fx = true -> fx_pushblock fx = true ->
+  forall c0 sid es data block rest fin encdata encpayload OA OB O2,
+  c_done c0 = false -> is_uni sid = false -> is_uni es = true ->
+  hd_ready c0 sid -> enc_ready c0 es encdata encpayload ->
+  frame_at data 1 block rest ->
+  o_enc OA encpayload = EUnblocked [] ->
+  o_dec OB sid block = DBlocked ->
+  o_enc O2 encpayload = EUnblocked [sid] -> o_resume O2 sid = o_dec O2 sid block -> o_dec O2 sid block <> DBlocked ->
+  run fx c0 [(QStream es encdata false, OA); (QStream sid data fin, O2)] =
+  run fx c0 [(QStream sid data fin, OB); (QStream es encdata false, O2)].
+Proof. exact hd_interleave. Qed.
+Print Assumptions interleaving_independent_headers.
 
 (* the refuting inputs on the model of the patched code: same outcome for both deliveries *)
 Theorem chunking_witnesses_agree_when_fixed :
@@ -131,6 +151,30 @@ Theorem chunking_independent_uni :
 Proof. exact uni_two. Qed.
 Print Assumptions chunking_independent_uni.
 
+(* ... and ANY NUMBER of deliveries: every unidirectional stream state satisfying uinv -- true of a new stream
+   (chunking_uni_hypothesis_fresh) and kept by every delivery without FIN (chunking_uni_hypothesis_preserved), so of every
+   state such a stream can be in between two deliveries --, every first chunk and list of further chunks (mk_chunks: FIN on
+   the last one, an empty last part = FIN as a delivery of its own, fin = false = no FIN yet): feeding the chunks one by
+   one (ufeed) = one delivery of their concatenation: same normalised events, same stream state, same connection state,
+   same unblocked stream ids in the same order, or the same close code / exception. *)
+Theorem chunking_independent_uni_any_number_of_deliveries :
+  forall fx O, fx_trunc fx = true -> fx_endmark fx = true -> ds_seq O -> enc_seq O ->
+  forall parts st c first fin, uinv st ->
+  (fin = true -> is_ctrl st (first ++ concat parts) = false) ->
+  uequiv (ufeed fx O st c (mk_chunks first parts fin)) (uni_full fx O st c (first ++ concat parts) fin).
+Proof. exact uni_chunks. Qed.
+Print Assumptions chunking_independent_uni_any_number_of_deliveries.
+
+Theorem chunking_uni_hypothesis_fresh : forall sid, uinv (new_stream sid).
+Proof. exact uinv_fresh. Qed.
+Print Assumptions chunking_uni_hypothesis_fresh.
+
+Theorem chunking_uni_hypothesis_preserved :
+  forall fx O, fx_trunc fx = true -> fx_endmark fx = true ->
+  forall st c d e st1 c1 u, uinv st -> uni_full fx O st c d false = UF e st1 c1 u -> uinv st1.
+Proof. exact uinv_preserved. Qed.
+Print Assumptions chunking_uni_hypothesis_preserved.
+
 Theorem uni_is_receive_stream_data :
   forall fx O c0 sid data fin, is_uni sid = true ->
   receive_stream_data0 fx O c0 sid data fin =
@@ -142,6 +186,39 @@ Theorem uni_is_receive_stream_data :
   end.
 Proof. exact recv0_uni_full. Qed.
 Print Assumptions uni_is_receive_stream_data.
+
+(* CONNECTION LEVEL: _receive_stream_data for a unidirectional stream id, stream table (get_or_create / put_stream) and
+   resume pass included.  For every connection c0, unidirectional id sid whose stream (new or existing) is stream_ok, bytes
+   a, b: one delivery of a ++ b = delivery of a, then of b (FIN on the second one allowed off the control stream): same
+   normalised events AND the same connection afterwards -- settings, max push id, peer stream ids, and the WHOLE STREAM
+   TABLE, entry of sid and entries of all resumed streams, in the same order --, or both deliveries fail (cequiv).
+   Hypotheses: the QPACK streaming hypotheses of chunking_independent_uni, and the decoder never reports the stream being
+   delivered itself as unblocked.  Proof: the resume pass as a function of the table alone (unblock_unb), it commutes with
+   an update of another stream's entry (unb_put_other) and leaves other entries alone (unb_find_other), a unidirectional
+   delivery ignores the table (uni_full_ss), uni_two, unb_app. *)
+Theorem chunking_independent_uni_connection_level :
+  forall fx O, fx_trunc fx = true -> fx_endmark fx = true ->
+  forall c0 sid a b fin,
+  is_uni sid = true -> ds_seq O -> enc_seq O ->
+  stream_ok (fst (get_or_create c0 sid)) ->
+  (fin = true -> is_ctrl (fst (get_or_create c0 sid)) (a ++ b) = false) ->
+  (forall x l, o_enc O x = EUnblocked l -> ~ In sid l) ->
+  cequiv (receive_stream_data0 fx O c0 sid (a ++ b) fin)
+         (sbind (receive_stream_data0 fx O c0 sid a false) (fun c1 => receive_stream_data0 fx O c1 sid b fin)).
+Proof. exact recv_uni_two. Qed.
+Print Assumptions chunking_independent_uni_connection_level.
+
+(* "both deliveries fail" cannot be sharpened to "with the same code": encoder-stream bytes that unblock a stream whose
+   headers are refused, followed by bytes the decoder rejects, close with QPACK_ENCODER_STREAM_ERROR when delivered whole and
+   with H3_MESSAGE_ERROR when delivered in two pieces (no event in either case; replayed on the real H3Connection). *)
+Theorem chunking_independent_uni_connection_close_code_refuted :
+  run all_fixed (conn_init true true) [(QStream 0 [1; 1; 0] false, o_corner); (QStream 7 [2; 1; 9] false, o_corner)]
+    = [Events []; Closed QPACK_ENCODER_STREAM_ERROR] /\
+  run all_fixed (conn_init true true)
+      [(QStream 0 [1; 1; 0] false, o_corner); (QStream 7 [2; 1] false, o_corner); (QStream 7 [9] false, o_corner)]
+    = [Events []; Closed H3_MESSAGE_ERROR; Events []].
+Proof. exact close_code_corner. Qed.
+Print Assumptions chunking_independent_uni_connection_close_code_refuted.
 
 (* ... and the exception: on the control stream the close CODE depends on whether the FIN comes with the last bytes
    (the code checks "stream_ended" before it parses the frames of that delivery); both deliveries close the connection. *)
